@@ -4,5 +4,5 @@ Extraction Language OCaml.
 Extraction "c07_model.ml"
   prelude_byte_of_N prelude_N_of_byte prelude_Z_of_N prelude_Z_opp prelude_nat_of_N prelude_N_of_nat
   compact compact_asserts from_compact div_round53 next_target serialize deserialize
-  dsha pow_hash pow_value check_header validate connect repair load_repair hopen hclose
+  dsha pow_hash pow_value check_header validate connect repair_links tip_check repair load_repair hopen hclose
   ensure_checkpointed_size get_all_missing has_header fetch_chunk ensure_chunk_at lookup_header do_write visited_end.
